@@ -76,6 +76,7 @@ class State:
         h = self.h.with_(alloc=a + 1)
         h = h.set('cls', z3.Store(h.arr['cls'], a, z3.IntVal(cls_id)))
         h = h.set('own_obj', z3.Store(h.arr['own_obj'], a, z3.IntVal(-1)))
+        h = h.set('orig', z3.Store(h.arr['orig'], a, a))
         self.h = h
         return a
 
